@@ -594,6 +594,10 @@ class Parser:
         self.hi = close
         try:
             d = self._looks_like_decl()
+            if d is not None and self.toks[d].kind == "id" and self.toks[d + 1].text not in ("=", "{"):
+                # a condition declaration always has an `=` / brace initialiser: `a && f(x)` is an expression, not `a &&f(x)`
+                # (blind spot found by the GIR cross-check: the call in the condition was invisible to the rules)
+                d = None
             if d is not None:
                 return self._declaration(d, ())
             e = self.expression()
